@@ -46,7 +46,7 @@ CHECKS = {
 CHECKS.update({
  "C05": ("model_checking",
          "SignFlow.tla (sign -> edit -> verify machine with ideal signatures) model-checked by TLC: the commitment table is derived for every shape/position/hash type/edit; real sign/edit/verify histories are validated by TLC evaluating the whole VerifyScript (ScriptVM.tla) with ECDSA on secp256k1 (Curve.tla) and the table's prediction (Trace_ScriptVM flow.verify)",
-         "TLC explores every history of the ideal-signature machine up to 3x3 transactions (exhaustive for the catalogue); each recorded real history (template x hash type x position x edit) is re-evaluated in the spec with the actual signatures; in the other direction every history TLC explores on the ideal scheme (MC_SignFlowReplay: all shapes <=2x2 quick / <=3x3 thorough x position x 9 hash types x edit) is performed with a real key, RawSignatureHash and VerifyScript and must give the specification's verdict; quick samples a third of the template x type grid, thorough takes all",
+         "TLC explores every history of the ideal-signature machine up to 3x3 transactions (exhaustive for the catalogue); each recorded real history (template x hash type x position x edit) is re-evaluated in the spec with the actual signatures; in the other direction every history TLC explores on the ideal scheme (MC_SignFlowReplay: all shapes <=3x3 x position x 9 hash types x edit, reordering of outputs and of other inputs included) is performed with a real key, RawSignatureHash and VerifyScript and must give the specification's verdict; quick samples a third of the template x type grid, thorough takes all",
          TB + "; curve formulas model-checked exhaustively only on a toy curve", "DESIGN.md section 3 C05"),
  "C09": ("model_checking",
          "ValueSem.tla (heap of transaction objects with explicit references; Freeze/Thaw copy discipline) model-checked by TLC (immutables closed and stable, no shared mutable sub-object, edits independent) with EVERY reached state replayed into real objects (spec->code), plus TLC-simulated long histories and an attribute-immutability probe",
